@@ -204,8 +204,8 @@ fn gen_biased(r: &mut Rng) -> u16 {
 const NEW_POINTS_VALID: u32 = 3;
 /// … and when it has to wipe: + mkdir create magic0 magic1 segsize version generation body sync
 const NEW_POINTS_WIPE: u32 = 12;
-/// points of one `write`: gen load, gen store, 8 field stores, gen store
-const WRITE_POINTS: u32 = 11;
+/// points of one `write`: gen load, gen store, fence, 8 field stores, gen store
+const WRITE_POINTS: u32 = 12;
 
 #[derive(Clone, Copy, Debug, PartialEq)]
 pub enum Profile {
@@ -410,8 +410,8 @@ pub fn gen_config(profile: Profile, run_seed: u64, index: u64) -> ACfg {
             // die right after the odd generation store of the last write
             let at = NEW_POINTS_VALID + (w - 1) * WRITE_POINTS + 2 + r.below(3) as u32;
             cfg.incs.push(IncCfg { writes: w, kill_at: Some(at), io_err: None, corrupt_before: Corrupt::None, gap_ns: 0, write_gap_ns: 0 });
-            for _ in 0..r.range(1, 2) {
-                let mut rd = gen_reader(&mut r, 3, false);
+            for _ in 0..1 {
+                let mut rd = gen_reader(&mut r, 2, false);
                 rd.start_ns = 0;
                 rd.retry_ns = 20;
                 for c in rd.calls.iter_mut() {
@@ -480,7 +480,15 @@ fn valid_segment_bytes(gen: u16, k: i64) -> Vec<u8> {
     encode_segment(&PSegment { len: 72, magic0: P_MAGIC0, magic1: P_MAGIC1, segsize: 72, version: 1, generation: gen, rec: rec_of(k) })
 }
 
-fn apply_corruption(path: &Path, c: &Corrupt) {
+pub fn corrupt_to_json(c: &Corrupt) -> Value {
+    corrupt_json(c)
+}
+
+pub fn corrupt_from_json(v: &Value) -> Corrupt {
+    corrupt_from(v)
+}
+
+pub fn apply_corruption(path: &Path, c: &Corrupt) {
     let rm = |p: &Path| {
         if p.is_dir() {
             let _ = std::fs::remove_dir_all(p);
@@ -1171,7 +1179,7 @@ fn open_via_ffi(path: &Path) -> (u8, i32) {
     use std::os::unix::ffi::OsStrExt;
     let c = CString::new(path.as_os_str().as_bytes()).unwrap();
     let mut err = clockbound::clockbound_err::default();
-    let ctx = unsafe { clockbound::clockbound_open(c.as_ptr(), &mut err) };
+    let ctx = verif_rt::nokill(|| unsafe { clockbound::clockbound_open(c.as_ptr(), &mut err) });
     if ctx.is_null() {
         let k = match err.kind {
             clockbound::clockbound_err_kind::CLOCKBOUND_ERR_NONE => 0,
@@ -1183,7 +1191,7 @@ fn open_via_ffi(path: &Path) -> (u8, i32) {
         // a NULL context with kind NONE would be an undocumented failure
         (if k == 0 { 9 } else { k }, err.errno)
     } else {
-        unsafe { clockbound::clockbound_close(ctx) };
+        verif_rt::nokill(|| unsafe { clockbound::clockbound_close(ctx) });
         (0, 0)
     }
 }
